@@ -20,7 +20,7 @@ import (
 )
 
 var c18Kinds = []string{"field-deleted", "type-confused", "negative-int", "huge-int", "empty-array", "oversized-array",
-	"short-id", "unknown-event", "unknown-round", "error-report-naming-nobody", "junk-bytes-value", "truncated-bytes-value", "baked-range-negative", "baked-range-huge", "not-json", "null-value", "deep-nesting",
+	"short-id", "unknown-event", "unknown-round", "error-report-naming-nobody", "registered-key-of-odd-length", "junk-bytes-value", "truncated-bytes-value", "baked-range-negative", "baked-range-huge", "not-json", "null-value", "deep-nesting",
 	"sealed-deal-mutated-inside"}
 
 // mutateJSON applies one structure-aware mutation to a JSON document.
@@ -199,6 +199,31 @@ func mutateStructural(w *World, m storage.Message, by int, kind string) (storage
 		x.Event = []string{"event_unknown", "", "event_signing_restart", "event_dkg_init_process", "state_dkg_commits_await_confirmations"}[w.Tape.Choose(5, "ev")]
 	case "unknown-round":
 		x.DkgRoundID = []string{"", "zz", strings.Repeat("ab", 32), m.DkgRoundID[:8]}[w.Tape.Choose(4, "round")]
+	case "registered-key-of-odd-length":
+		// an opening proposal (nobody authenticates it) that registers a communication
+		// key of a length no ed25519 key has for one participant; that participant's
+		// later, genuinely signed messages then meet this registered key
+		if m.Event != "event_sig_proposal_init" {
+			return x, false
+		}
+		var req map[string]interface{}
+		if json.Unmarshal(m.Data, &req) != nil {
+			return x, false
+		}
+		ps, _ := req["Participants"].([]interface{})
+		if len(ps) == 0 {
+			return x, false
+		}
+		p, _ := ps[w.Tape.Choose(len(ps), "oddKeyWho")].(map[string]interface{})
+		if p == nil {
+			return x, false
+		}
+		kb := make([]byte, []int{10, 16, 31, 33, 64}[w.Tape.Choose(5, "oddKeyLen")])
+		for i := range kb {
+			kb[i] = byte(w.Tape.Choose(256, "kb"))
+		}
+		p["PubKey"] = base64.StdEncoding.EncodeToString(kb)
+		x.Data, _ = json.Marshal(req)
 	case "error-report-naming-nobody":
 		// a well-formed failure report of the step the genuine message belongs
 		// to, naming a participant number nobody has
@@ -275,6 +300,9 @@ func runC18(w *World, tier string) (bool, interface{}) {
 				return
 			}
 			kind := c18Kinds[w.Tape.Choose(len(c18Kinds), "kind")]
+			if m.Event == "event_sig_proposal_init" && w.Tape.Bool(1, 2, "oddKey") {
+				kind = "registered-key-of-odd-length"
+			}
 			if w.Tape.Bool(1, 6, "replayEarlier") {
 				// a well-formed message at the wrong moment: an earlier genuine message of
 				// the round posted again unchanged (duplicate confirmation, a proposal while
@@ -357,6 +385,22 @@ func runC18(w *World, tier string) (bool, interface{}) {
 			kinds = append(kinds, kind+"@"+m.Event)
 			w.Stats.Fault("malformed-" + kind)
 			w.Board.InjectMsg(x, &Inject{Kind: kind, Expect: "no-crash"})
+			if kind == "registered-key-of-odd-length" {
+				// ... and somebody posts a message in the name of every participant of that
+				// proposal (whoever got the odd key cannot do so through its own node)
+				var req requests.SignatureProposalParticipantsListRequest
+				if json.Unmarshal(x.Data, &req) == nil {
+					for pid, p := range req.Participants {
+						if p == nil || len(p.PubKey) == ed25519.PublicKeySize {
+							continue
+						}
+						y := storage.Message{DkgRoundID: x.DkgRoundID, Event: "event_sig_proposal_confirm_by_participant", SenderAddr: p.Username}
+						y.Data, _ = json.Marshal(map[string]interface{}{"ParticipantId": pid, "CreatedAt": time.Now()})
+						y.Signature = ed25519.Sign(w.Nodes[by].Priv, y.Bytes())
+						w.Board.InjectMsg(y, &Inject{Kind: "message-in-the-name-of-the-odd-key-participant", Expect: "no-crash"})
+					}
+				}
+			}
 		})
 	}
 	c.L.OnInjectedConsumed = func(nd *HotNode, off uint64, inj *Inject, before, after map[string][]byte, failed bool, pan string) {
